@@ -12,6 +12,7 @@ VARIABLE l
 Dev(e) ==
     IF e.ev = "step" /\ Dev_RemoveTypeNonLastPanics(e) THEN "Dev_RemoveTypeNonLastPanics"
     ELSE IF e.ev = "step" /\ Dev_TwoWayHalfAdded(e) THEN "Dev_TwoWayHalfAdded"
+    ELSE IF e.ev = "step" /\ Dev_InvalidNullableKindAccepted(e) THEN "Dev_InvalidNullableKindAccepted"
     ELSE IF e.ev = "check" /\ Dev_CheckIgnoresInverseTarget(e) THEN "Dev_CheckIgnoresInverseTarget"
     ELSE "NONE"
 
